@@ -98,6 +98,7 @@ impl Sim {
             }
             pct_points.sort();
         }
+        let budget = if cfg.step_budget > 0 { cfg.step_budget } else { 3_000_000 };
         let inner = Inner {
             threads: Vec::new(),
             current: 0,
@@ -112,7 +113,7 @@ impl Sim {
             io_n: 0,
             faults: faults.into_iter().map(|f| (f, false)).collect(),
             pending_exit_after_store: false,
-            step_budget: 3_000_000,
+            step_budget: budget,
             buggify,
             probes: Default::default(),
             faults_fired: Default::default(),
